@@ -76,29 +76,6 @@ def check_text(case, stats):
     if stop[0] == "ok":
         raise Violation(case, "stop-at-first-error mode accepts a document the collecting mode rejects\n%s" % text)
     generic_invariants(case, text, real[1], stop[1])
-    # the flag is used for its truth value: 1 (from a command-line option or the environment) means the same as True
-    flagged = gh.Parser(gh.AstBuilder(gh.IdGenerator()))
-    flagged.stop_at_first_error = 1
-    try:
-        flagged.parse(text, gh.TokenMatcher(dflt))
-        r = ("ok",)
-    except gh.CompositeParserException as e:
-        r = ("err", [gh.err_tuple(x) for x in e.errors])
-    except gh.ParserException as e:
-        r = ("err", [gh.err_tuple(e)])
-    if r != stop:
-        raise Violation(case, "with stop_at_first_error = 1 the parser raises %r, with True %r\n%s" % (r[1:] and r[1][:3], stop[1], text))
-    # shallow copies of a parser (prototype / clone pattern) that are given the other error mode behave as that mode
-    import copy
-    proto = gh.Parser(gh.AstBuilder(gh.IdGenerator()))
-    proto.stop_at_first_error = False
-    r = gh.parse(text, dflt, parser=copy.copy(proto), stop=True)
-    if r != stop:
-        raise Violation(case, "a copy.copy() of a collecting parser switched to stop-at-first-error mode gives %r, expected %r\n%s" % (r[1][:3], stop[1], text))
-    proto.stop_at_first_error = True
-    r = gh.parse(text, dflt, parser=copy.copy(proto), stop=False)
-    if r != real:
-        raise Violation(case, "a copy.copy() of a stop-at-first-error parser switched to collecting mode gives %r, expected %r\n%s" % (r[1][:3], real[1][:3], text))
     # stream API: only parseError envelopes, one per error, in order (default dialect only: the stream has no dialect option)
     if dflt == "en":
         ev = gh.GherkinEvents(gh.GherkinEvents.Options(print_source=True, print_ast=True, print_pickles=True))
